@@ -144,6 +144,19 @@ func (E *Engine) atLoopHead(m *Machine, f *Frame, l *Loop, from, head *ssa.Basic
 	if back {
 		// preservation
 		ctx := f.Loops[ctxKey]
+		// soundness guard: everything the iteration wrote must have been havocked at the head
+		if ctx != nil && ctx.HeadHeapSnap != nil && E.probing == 0 {
+			for c, hv := range ctx.HeadHeapSnap {
+				if cur, ok := m.Heap[c]; ok && cur != hv && !ctx.Havocked.Cells[c] {
+					panic(unsupported(fmt.Sprintf("loop %s: cell %d written in an iteration but not havocked at the head (probe missed a write)", lname0(f, l), c)))
+				}
+			}
+			for g, hv := range ctx.HeadGSnap {
+				if cur, ok := m.G[g]; ok && cur != hv && !ctx.Havocked.G[g] {
+					panic(unsupported(fmt.Sprintf("loop %s: state component %s written in an iteration but not havocked at the head", lname0(f, l), g)))
+				}
+			}
+		}
 		for _, inv := range spec.Invariants {
 			g := E.evalInv(m, f, ctx, spec, inv)
 			E.addObl(m, &Obligation{Name: fmt.Sprintf("%s:inv-pres@%s:%s", m.Top.Name, lname, inv.Label), Func: m.Top.Name, Kind: "inv-pres",
@@ -229,6 +242,8 @@ func (E *Engine) atLoopHead(m *Machine, f *Frame, l *Loop, from, head *ssa.Basic
 		f.Env[ph] = m.symbolicValue(ph.Type(), sanitize(lname)+"_"+name)
 	}
 	ctx.Havocked = log
+	ctx.HeadHeapSnap = copyHeap(m.Heap)
+	ctx.HeadGSnap = copyG(m.G)
 	for _, inv := range spec.Invariants {
 		g := E.evalInv(m, f, ctx, spec, inv)
 		m.AssumeT(g)
@@ -317,3 +332,5 @@ func (E *Engine) feasible(m *Machine) bool {
 	r := Solve(q, 3, 1, m.Z3Ext, false)
 	return r.Status != "unsat"
 }
+
+func lname0(f *Frame, l *Loop) string { return fmt.Sprintf("%s#%d", FuncName(f.Fn), l.Ordinal) }
